@@ -398,7 +398,12 @@ class Engine:
             if self.frontier_depth is not None and i >= self.frontier_depth:
                 raise Frontier()
             says = self._model_says(cond)
-            if says is None:
+            if _is_membership(cond) and says is not None and self._regular(cond if says else z3.Not(cond)):
+                # the regular lemma proves the side the carried model witnesses: the other side is infeasible
+                self.stats["model_hits"] += 1
+                rt, mt = ("sat", self.model) if says else ("unsat", None)
+                rf, mf = ("unsat", None) if says else ("sat", self.model)
+            elif says is None:
                 rt, mt = self._check(cond)
                 rf, mf = self._check(z3.Not(cond))
             elif says:
@@ -437,6 +442,9 @@ class Engine:
             self.stats["discharged"] += 1
             return True
         neg = z3.Not(cond)
+        if _is_membership(cond) and self._regular(cond):
+            self.stats["discharged"] += 1
+            return True
         if self._model_says(neg) is True and self._model_ok():
             r = "sat"
         else:
@@ -448,6 +456,10 @@ class Engine:
             raise Unsupported(f"solver unknown on obligation {label}")
         self.cex.append(dict(label=label, pc=list(self.pc), neg=neg, cf_apps=list(self.cf_apps)))
         return False
+
+    def _regular(self, cond):
+        from .regular import prove_membership
+        return prove_membership(self, cond)
 
     def _model_ok(self):
         """The carried model really satisfies the whole path condition (evaluation only)."""
@@ -672,6 +684,11 @@ def E():
 
 
 # -------------------------------------------------------------------- z3 helpers
+def _is_membership(cond):
+    c = cond.arg(0) if z3.is_not(cond) else cond
+    return z3.is_app_of(c, z3.Z3_OP_SEQ_IN_RE)
+
+
 def flatten(e):
     if z3.is_app_of(e, z3.Z3_OP_SEQ_CONCAT):
         out = []
@@ -1228,8 +1245,6 @@ class SymStr:
         raise Unsupported("str.replace (all occurrences) on a symbolic string")
 
     def _strip(self, chars, left, right):
-        eng = E()
-        e = eng.norm(self.e)
         if chars is None:
             cls = ws_re()
         else:
@@ -1238,20 +1253,7 @@ class SymStr:
             if not chars:
                 return self
             cls = z3.Union(*[z3.Re(c) for c in chars]) if len(chars) > 1 else z3.Re(chars)
-        key = ("strip", e.get_id(), chars, left, right)
-        if key not in eng.memo:
-            l_, m_, r_ = eng.fresh_str("sl"), eng.fresh_str("sm"), eng.fresh_str("sr")
-            cons = [e == z3.Concat(l_, m_, r_)]
-            cons.append(z3.InRe(l_, z3.Star(cls)) if left else l_ == z3.StringVal(""))
-            cons.append(z3.InRe(r_, z3.Star(cls)) if right else r_ == z3.StringVal(""))
-            notcls = z3.Complement(z3.Concat(cls, ANYSTR)) if True else None
-            if left:
-                cons.append(z3.InRe(m_, z3.Complement(z3.Concat(cls, ANYSTR))))
-            if right:
-                cons.append(z3.InRe(m_, z3.Complement(z3.Concat(ANYSTR, cls))))
-            eng.define(*cons)
-            eng.memo[key] = m_
-        return SymStr(eng.memo[key])
+        return SymStripped(self.e, cls, chars, left, right)
 
     def strip(self, chars=None): return self._strip(chars, True, True)
     def lstrip(self, chars=None): return self._strip(chars, True, False)
@@ -1284,6 +1286,41 @@ class SymStr:
     def capitalize(self): raise Unsupported("capitalize")
     def swapcase(self): raise Unsupported("swapcase")
     def zfill(self, n): raise Unsupported("zfill")
+
+
+class SymStripped(SymStr):
+    """Result of str.strip()/lstrip()/rstrip(): decomposed into fresh variables only when its content is
+    needed; truthiness (the common `if not s.strip()`) is a plain regular-membership test on the base."""
+    __slots__ = ("base", "cls", "chars", "left", "right", "_e")
+
+    def __init__(self, base, cls, chars, left, right):
+        self.base, self.cls, self.chars, self.left, self.right = base, cls, chars, left, right
+        self._e = None
+
+    @property
+    def e(self):
+        if self._e is None:
+            eng = E()
+            b = eng.norm(self.base)
+            key = ("strip", b.get_id(), self.chars, self.left, self.right)
+            if key not in eng.memo:
+                l_, m_, r_ = eng.fresh_str("sl"), eng.fresh_str("sm"), eng.fresh_str("sr")
+                cons = [b == z3.Concat(l_, m_, r_)]
+                cons.append(z3.InRe(l_, z3.Star(self.cls)) if self.left else l_ == z3.StringVal(""))
+                cons.append(z3.InRe(r_, z3.Star(self.cls)) if self.right else r_ == z3.StringVal(""))
+                if self.left:
+                    cons.append(z3.InRe(m_, z3.Complement(z3.Concat(self.cls, ANYSTR))))
+                if self.right:
+                    cons.append(z3.InRe(m_, z3.Complement(z3.Concat(ANYSTR, self.cls))))
+                eng.define(*cons)
+                eng.memo[key] = m_
+            self._e = eng.memo[key]
+        return self._e
+
+    def __bool__(self):
+        if self._e is None:
+            return E().branch(z3.Not(z3.InRe(self.base, z3.Star(self.cls))))
+        return E().branch(z3.Length(self._e) > 0)
 
 
 CF = z3.Function("casefold", z3.StringSort(), z3.StringSort())
